@@ -482,12 +482,25 @@ func (s *scen) v1Contracts() {
 	for i := range data {
 		data[i] = byte(i * 7)
 	}
-	blk, bs, ids, err := s.c.BlockWithV1Contracts([]chaingen.V1ContractSpec{{Data: data, WindowStart: W, WindowEnd: W + 4}, {Data: data, WindowStart: W + 40, WindowEnd: W + 44}})
+	blk, bs, ids, err := s.c.BlockWithV1Contracts([]chaingen.V1ContractSpec{{Data: data, WindowStart: W, WindowEnd: W + 4}, {Data: data, WindowStart: W + 40, WindowEnd: W + 44}, {Data: nil, WindowStart: W, WindowEnd: W + 4}})
 	if err != nil || ids[0] == (types.FileContractID{}) || s.c.Offer(blk, bs, nil) != nil {
 		return
 	}
 	id := ids[0]
-	idFar := ids[1] // second contract, window far away (zero ID if it could not be funded)
+	idFar := ids[1]   // second contract, window far away (zero ID if it could not be funded)
+	idEmpty := ids[2] // third contract: no data (from the storage-proof fork on it needs no proof data - but still its window)
+	mkEmptyProof := func() (types.Block, consensus.V1BlockSupplement, error) {
+		e, ok := s.c.S.FCEs[idEmpty]
+		if !ok {
+			return types.Block{}, consensus.V1BlockSupplement{}, fmt.Errorf("contract gone")
+		}
+		b2, bs2, err := s.c.BlockWith([]types.Transaction{{StorageProofs: []types.StorageProof{{ParentID: idEmpty}}}}, nil)
+		if err == nil && len(bs2.Transactions) == 1 && len(bs2.Transactions[0].StorageProofs) == 0 {
+			// the window block does not exist yet: the store has no window ID to offer; the contract itself is live
+			bs2.Transactions[0].StorageProofs = []consensus.V1StorageProofSupplement{{FileContract: e.Copy(), WindowID: s.c.Tip().Index.ID}}
+		}
+		return b2, bs2, err
+	}
 	// a revision and a storage proof of the same contract in one block: the window that counts is the one of the
 	// contract as it stands after the revision. later=true moves the window of the first contract far away and then
 	// offers the proof (never allowed in the probed range); later=false pulls the far window of the second contract
@@ -571,7 +584,11 @@ func (s *scen) v1Contracts() {
 			{"v1-storage-proof-from-window-start", mkProof, child >= W && child <= W+4, re("cannot be submitted until after window start|nonexistent file contract|not present in the accumulator")},
 			{"v1-storage-proof-after-same-block-revision/window-moved-later", mkRevThenProof(id, true), false, re("cannot be submitted until after window start")},
 			{"v1-storage-proof-after-same-block-revision/window-pulled-to-this-block", mkRevThenProof(idFar, false), idFar != (types.FileContractID{}), re("cannot be submitted until after window start")},
+			{"v1-storage-proof-of-an-empty-contract-from-window-start", mkEmptyProof, child >= W && child <= W+4, re("cannot be submitted until after window start|nonexistent file contract|not present in the accumulator")},
 		} {
+			if pr.name == "v1-storage-proof-of-an-empty-contract-from-window-start" && (idEmpty == (types.FileContractID{}) || !chaingen.HonestV1ProofPossible(s.c.Net.N.HardforkTax.Height, s.c.Net.N.HardforkStorageProof.Height, child, 0, 0)) {
+				continue // before the storage-proof fork no proof of an empty file is accepted at any height (C07)
+			}
 			if pr.name == "v1-storage-proof-after-same-block-revision/window-moved-later" && child > W {
 				continue // the contract's own window has opened: it can no longer be revised
 			}
